@@ -4,7 +4,7 @@
    specification (kernel printers k_..., demanded answers spec_...): C12/Spec.v.
    [now] is the code as it is in /repo; [before_fix] is the code before the two repairs
    this check led to (commits 46827e5, 76627f6) and appears only in the refuted statements. *)
-From PV Require Import C12.Spec C12.Proofs C12.ProofsEnv C12.ProofsLink.
+From PV Require Import C12.Spec C12.Codec C12.Proofs C12.ProofsEnv C12.ProofsLink C12.ProofsTotal.
 
 (* ---- cmdline() *)
 
@@ -36,7 +36,42 @@ Theorem C12_cmdline_empty_file : forall c zombie,
 Proof. exact cmdline_empty_file. Qed.
 Print Assumptions C12_cmdline_empty_file.
 
+(* the whole heuristic pinned: for EVERY byte string in the file (no well-formedness
+   hypothesis: NULs inside a title, mixed separators, no terminator, only separators ...)
+   cmdline() is the documented rule [spec_split]; the empty file is the zombie test *)
+Theorem C12_cmdline_total : forall data zombie,
+  pl_cmdline now (view_cmd_bytes data zombie) = spec_cmd_bytes data zombie.
+Proof. exact cmdline_total. Qed.
+Print Assumptions C12_cmdline_total.
+
+(* ... and on kernel-shaped files the rule gives the argument vector / the words *)
+Theorem C12_cmdline_rule_on_kernel_shapes : forall k,
+  wf_cmd k = true -> k_cmdline k <> [] -> spec_split (k_cmdline k) = spec_cmdline k.
+Proof. exact spec_split_argv. Qed.
+Print Assumptions C12_cmdline_rule_on_kernel_shapes.
+
 (* ---- environ() *)
+
+(* for every byte block whatsoever: never an exception, a dictionary with unique keys *)
+Theorem C12_environ_total : forall data,
+  exists d, pl_environ now (view_env_bytes data) = Val d /\ NoDup (map fst d).
+Proof. exact environ_total. Qed.
+Print Assumptions C12_environ_total.
+
+(* ... and which dictionary: read the block as NUL-terminated entries up to the first empty
+   one ([env_read], which prints back to exactly the block); every NAME maps to the value of
+   its last NAME=value entry *)
+Theorem C12_environ_total_spec : forall data,
+  exists d, pl_environ now (view_env_bytes data) = Val d /\ NoDup (map fst d) /\
+            forall k, aget k d = env_last k (e_items (env_read data)).
+Proof. exact environ_total_spec. Qed.
+Print Assumptions C12_environ_total_spec.
+
+Theorem C12_environ_every_block_is_a_record : forall data,
+  k_environ (env_read data) = data /\ wf_env (env_read data) = true.
+Proof. exact env_read_print. Qed.
+Print Assumptions C12_environ_every_block_is_a_record.
+
 
 (* every block: the call succeeds, each NAME occurs once, and looking a NAME up gives the
    value of its last NAME=value entry before the first empty entry ('=' kept in values,
@@ -83,6 +118,19 @@ Theorem C12_link_probe_denied : forall v l,
   pl_readlink v l = Exc AccessDenied.
 Proof. exact link_probe_denied. Qed.
 Print Assumptions C12_link_probe_denied.
+
+(* the decision table of a link that is not given (ENOENT / ESRCH), in one statement:
+   live -> '', zombie -> ZombieProcess, stat absent -> NoSuchProcess, probe refused ->
+   AccessDenied; for _readlink itself, for cwd(), and for the front-end exe() in the rows
+   where no fallback is attempted (nothing is cached there) *)
+Theorem C12_link_decision_table : forall c v l,
+  withheld l = true ->
+  pl_readlink v l = link_table (v_stat v) (v_stat_denied v)
+  /\ (v_cwd v = l -> pl_cwd v = link_table (v_stat v) (v_stat_denied v))
+  /\ (v_exe v = l -> v_stat v <> Some false -> (v_stat v = None -> v_stat_denied v = false) ->
+      fe_exe c None v = (link_table (v_stat v) (v_stat_denied v), None)).
+Proof. exact link_decision_table. Qed.
+Print Assumptions C12_link_decision_table.
 
 (* the same through the public calls for a process being torn down (stat unreachable, all
    other entries gone): cwd() and exe() raise NoSuchProcess; AccessDenied when the probe is refused *)
@@ -156,6 +204,26 @@ Theorem C12_history : forall r,
   wf_proc r = true -> run_ops now None (hist_ops (view_proc r)) = spec_hist r.
 Proof. exact history_now. Qed.
 Print Assumptions C12_history.
+
+(* ---- the codec name() relies on *)
+
+(* os.fsencode(b.decode(fs encoding, surrogateescape)) = b for every byte string: the tests
+   name() makes on the re-encoded name and basename are tests on the kernel's bytes *)
+Theorem C12_codec_roundtrip : forall b, wf_bytes b = true -> uencode (udecode b) = Some b.
+Proof. exact codec_roundtrip. Qed.
+Print Assumptions C12_codec_roundtrip.
+
+Theorem C12_udecode_injective : forall a b,
+  wf_bytes a = true -> wf_bytes b = true -> udecode a = udecode b -> a = b.
+Proof. exact udecode_inj. Qed.
+Print Assumptions C12_udecode_injective.
+
+Theorem C12_fsencode_tests : forall comm ext,
+  wf_bytes comm = true -> wf_bytes ext = true ->
+  exists c e, uencode (udecode comm) = Some c /\ uencode (udecode ext) = Some e /\
+              (15 <=? length c)%nat = (15 <=? length comm)%nat /\ prefixb c e = prefixb comm ext.
+Proof. exact fsencode_tests. Qed.
+Print Assumptions C12_fsencode_tests.
 
 (* ---- regression: the code before the repairs breaks the statements above *)
 
